@@ -1850,7 +1850,13 @@ pub(crate) async fn setup_redirect(
             // If not specified, default to stdin (fd 0).
             let fd_num = fd_num.unwrap_or(0);
 
-            let mut expanded_word = expansion::basic_expand_word(shell, params, word).await?;
+            // The word of a here-string is not brace-expanded (nor split or globbed).
+            let options = expansion::ExpanderOptions {
+                brace_expand: false,
+                ..Default::default()
+            };
+            let mut expanded_word =
+                expansion::basic_expand_word_with_options(shell, params, word, &options).await?;
             expanded_word.push('\n');
 
             let f = setup_open_file_with_contents(expanded_word.as_str())?;
